@@ -174,9 +174,10 @@ def compressLoopC {D} (T : Table D) (st : Bool) (join : D → D → Bool) (reduc
 def compressKmersC {D} (T : Table D) (st : Bool) (join : D → D → Bool) (reduce : D → D → D) : Option (List (Node D × List Nat)) :=
   compressLoopC T st join reduce (List.range T.length) (List.range T.length)
 
-/-- extension discovery of `compress_kmers_no_exts` (neighbours canonicalised with `min_rc` regardless of strandedness) -/
-def discoverExts (keys : List Seq) (k : Seq) : Exts :=
-  let can := fun (x : Seq) => (minRcFlip x).1
+/-- extension discovery of `compress_kmers_no_exts`: a neighbour is looked up as given when stranded, by its canonical form
+    otherwise (after the repair of D9; before it the canonical form was used in both modes) -/
+def discoverExts (st : Bool) (keys : List Seq) (k : Seq) : Exts :=
+  let can := fun (x : Seq) => (canonSt st x).1
   let l := (List.range 4).foldl (fun acc b => match (if h : b < 4 then some (⟨b, h⟩ : Base) else none) with
     | some bb => if keys.contains (can (extendLeft k bb)) then acc ||| (1 <<< b) else acc
     | none => acc) 0
